@@ -1141,6 +1141,7 @@ func genFuncs(ps []pkgInfo) (string, error) {
 				f.fail(fd, "unsupported result type")
 			}
 		}
+		sigOK := f.err == nil
 		before := len(byteVars)
 		ir := f.lower(fd.Body.List)
 		body := f.emit(ir, kont{kind: 0}, scope)
@@ -1148,7 +1149,13 @@ func genFuncs(ps []pkgInfo) (string, error) {
 			// outside the fragment: emit a definition on which the equivalence lemma of this function cannot hold, so that
 			// only the properties resting on this function lose their proof (the check then searches for a failing input)
 			fmt.Fprintln(os.Stderr, "gen: T11:", t.pkg+"."+t.name, "is outside the translated fragment:", f.err)
-			defs = append(defs, fmt.Sprintf("(* %s.%s — NOT TRANSLATED: %s *)\nDefinition %s_%s : unit := tt.\n", t.pkg, t.name, strings.ReplaceAll(f.err.Error(), "*)", "* )"), coqIdent(t.pkg), t.name))
+			if sigOK {
+				// a definition of the right type on which the equivalence lemma cannot hold, so that the functions that call
+				// this one still compile and only the lemmas about this function (and its callers) fail
+				defs = append(defs, fmt.Sprintf("(* %s.%s — NOT TRANSLATED: %s *)\nDefinition %s_%s %s : res %s := Panic.\n", t.pkg, t.name, strings.ReplaceAll(f.err.Error(), "*)", "* )"), coqIdent(t.pkg), t.name, strings.Join(params, " "), rt))
+			} else {
+				defs = append(defs, fmt.Sprintf("(* %s.%s — NOT TRANSLATED: %s *)\nDefinition %s_%s : unit := tt.\n", t.pkg, t.name, strings.ReplaceAll(f.err.Error(), "*)", "* )"), coqIdent(t.pkg), t.name))
+			}
 			continue
 		}
 		if len(byteVars) != before {
